@@ -5,6 +5,8 @@ CONSTANTS
   MaxOps = 100000000
   MaxCrashes = 100000000
   KeyBySeq = TRUE
+  MaxFails = 1000000
+  KeepOnFail = TRUE
 INVARIANT Finish
 POSTCONDITION Consumed
 CHECK_DEADLOCK FALSE
